@@ -127,7 +127,7 @@ BEYOND = {
  "C03": "The violation raised in fail-fast mode must be the first one collecting mode lists; values padded with white space are among the unlisted values. validate.node, validate.tree and Rule.validate_rule must agree on a childless node of every element (contents x attribute sets).",
  "C04": "Every repeatable child repeated 65 and 300 times; one Rule object driven through repeated validations; a rule whose children section does not parse is still driven over the names it mentions. Known names in Clark notation / with a prefix among the unknown ones; non-string content through constructor and setter.",
  "C05": "Trees producing 103, 132 and 1102 errors in one walk; repeated leaves of which one is invalid by an attribute value. Per-node verdicts also through Rule objects re-used for all nodes of one name (fail-fast call first); unknown elements named like pieces of 'metadata'.",
- "C06": "Chains of 13/30/70, stars of 12+1/40/300, 17x3, 14 attributes, seven prefixes over four URIs, 300-5000 character texts; prefixes declared before attachment; extras stored before attributes; a hand-written JSON document loaded and re-saved.",
+ "C06": "Chains of 13/30/70, stars of 12+1/40/300, 17x3, 14 attributes, seven prefixes over four URIs, 300-5000 character texts; prefixes declared before attachment; extras stored before attributes; a hand-written JSON document loaded and re-saved. CR LF in text; a default namespace (key None) - which does not survive JSON: recorded as open known findings F24a-f.",
  "C07": "The same deep/wide shapes; elements with 5/9/14 attributes, qualified attributes and 8 namespace declarations; values with 144 markup characters and up to 5000 characters; an inner node and the copy of an inner node exported as documents. Optional level / parent arguments; attribute names occurring in the EML exporter's boiler-plate; failing calls before every work item; export - edit in place - export; one id shared by all nodes.",
  "C08": "Texts longer than any line width; the text of a childless element must be stable exactly across import-export-import. Every work item starts with an ill-formed import, an export failing part-way and normalize() calls; a general entity from an internal DTD subset.",
  "C09": "Around every transition the queries are run before and after the edit on the same objects. Beyond the universes: one parent with 9-10 (9-12) children, every two-name pattern x every single shift; 17-70 children with sparse same-name patterns; chains of 13-64 nodes with all queries. Every insertion index from -len-4 to len+4; the caller's path list after a query; one id shared by all nodes; a parent with a default namespace.",
